@@ -2,11 +2,13 @@
 verus! {
 
 //@@ item src/algorithms/compact.rs :: ^pub fn cleanup_diff_ops rw=R0,R8,R2,R10
-/*@*/ /// the op list is a complete cursor-valid script for some box whose items may be indexed
+/*@*/ /// the op list is a complete cursor-valid script for some box whose items may be indexed, and the carried indices
+/*@*/ /// have room for the equal items around them (`carried_ok`, opspec_lemmas.rs: implied by exactness and by within-run validity)
 /*@*/ pub open spec fn cleanup_pre<Old: Index<usize> + ?Sized, New: Index<usize> + ?Sized>(old: &Old, new: &New, ops: Seq<DiffOp>, b: OBox) -> bool
 /*@*/   where New::Output: PartialEq<Old::Output>
 /*@*/ {
 /*@*/     ops_full(old, new, ops, b, false) && inb(old, (b.o0 as usize)..(b.oe as usize)) && inb(new, (b.n0 as usize)..(b.ne as usize))
+/*@*/     && carried_ok(ops)
 /*@*/ }
 /*@*/ /// what every compaction step preserves, for every box the input is a script for:
 /*@*/ /// cursor-wise validity (C02, C10), exactness of carried indices (C11), and the number of equal items (C10, C03)
@@ -15,12 +17,14 @@ verus! {
 /*@*/ {
 /*@*/     (forall|b: OBox| #[trigger] ops_full(old, new, ops0, b, false) ==> ops_full(old, new, ops1, b, false))
 /*@*/     && esum(ops1, ops1.len() as int) == esum(ops0, ops0.len() as int)
+/*@*/     && (carried_ok(ops0) ==> carried_ok(ops1))
 /*@*/ }
 /*@*/ pub open spec fn cleanup_post_exact<Old: Index<usize> + ?Sized, New: Index<usize> + ?Sized>(old: &Old, new: &New, ops0: Seq<DiffOp>, ops1: Seq<DiffOp>) -> bool
 /*@*/   where New::Output: PartialEq<Old::Output>
 /*@*/ {
 /*@*/     forall|b: OBox| #[trigger] ops_full(old, new, ops0, b, true) ==> ops_full(old, new, ops1, b, true)
 /*@*/ }
+/*@*/ #[verifier::exec_allows_no_decreases_clause]
 pub fn cleanup_diff_ops<Old, New>(old: &Old, new: &New, ops: &mut Vec<DiffOp>)
 where
     Old: Index<usize> + ?Sized,
@@ -58,6 +62,7 @@ where
 //@@ end
 
 //@@ item src/algorithms/compact.rs :: ^fn shift_diff_ops_up rw=R0,R8,R2,R10
+/*@*/ #[verifier::exec_allows_no_decreases_clause]
 fn shift_diff_ops_up<Old, New>(
     ops: &mut Vec<DiffOp>,
     old: &Old,
@@ -171,6 +176,7 @@ where
 //@@ end
 
 //@@ item src/algorithms/compact.rs :: ^fn shift_diff_ops_down rw=R0,R8,R2,R10
+/*@*/ #[verifier::exec_allows_no_decreases_clause]
 fn shift_diff_ops_down<Old, New>(
     ops: &mut Vec<DiffOp>,
     old: &Old,
